@@ -76,7 +76,7 @@ add("C16", "runtime monitor: pagination-link validity oracle over hostile pagers
     "Trusted: canonical form (case of scheme/host, trailing slash, fragment ignored); the harness' anchor resolution with net/url.",
     "DESIGN.md §5 C16")
 add("C17", "runtime monitor: exhaustive enumeration of the conventional-pager grid against links expected by construction",
-    "N in 2..12 x k x 8 URL families under 2 base paths x page URL with/without fragment x 3 href forms x trailing slash x 6 separators x 6 current-page decorations (page-number) and x 6 label pairs x with/without numbers (prev/next): 133,056 pagers in quick (wrapper, origin and host letter case rotate), x 6 wrappers x noise in thorough; expected next/prev computed by resolving the generated href. Exhaustive over the stated grid.",
+    "N in 2..12 x k x 11 URL families under 2 base paths x page URL with/without fragment x 3 href forms x trailing slash x 6 separators x 6 current-page decorations (page-number) and x 6 label pairs x with/without numbers (prev/next): 144,144 pagers in quick (wrapper, origin and host letter case rotate), x 6 wrappers x noise in thorough; expected next/prev computed by resolving the generated href. Exhaustive over the stated grid.",
     "Trusted: canonical URL comparison. Nothing is demanded of a prev/next side without a labelled anchor.",
     "DESIGN.md §5 C17")
 add("C18", "runtime monitor: reference implementation of the cascade vs black-box observation (<table> in output), exhaustive grid in thorough",
@@ -84,7 +84,7 @@ add("C18", "runtime monitor: reference implementation of the cascade vs black-bo
     "Trusted: the reference implementation of the stated cascade; the observer (a layout table never serialises as <table> outside list items, which are not generated).",
     "DESIGN.md §5 C18")
 add("C19", "runtime monitor: host/path/carrier grid with true host and id known by construction",
-    "30 hosts (allow-listed, subdomains, look-alikes, userinfo tricks, case/port/trailing dot) x 23 path shapes x 8 source forms x 12 carriers = 66,240 cases every run: a placeholder only for a truly allow-listed host, with the service as data-type and the URL's id as data-id; no bare iframe survives. Exhaustive over the stated grid in quick; thorough repeats it inside random articles.",
+    "33 hosts (allow-listed, subdomains, look-alikes incl. letters that Unicode case mapping folds onto ASCII, userinfo tricks, case/port/trailing dot) x 23 path shapes x 8 source forms x 12 carriers = 72,864 cases every run: a placeholder only for a truly allow-listed host, with the service as data-type and the URL's id as data-id; no bare iframe survives. Exhaustive over the stated grid in quick; thorough repeats it inside random articles.",
     "Trusted: the harness' notion of the true host and of 'the id taken from the URL' (last path segment, the segment after status for tweets, the v parameter for YouTube watch pages; data-tweet-id for rendered tweets).",
     "DESIGN.md §5 C19")
 add("C20", "runtime monitor: metamorphic triple (page, marked subtrees deleted, markers neutralised) with feedback-steered threshold sweep",
